@@ -85,6 +85,14 @@ func genLeaf(t *rapid.T, c TreeCfg) *Node {
 				n.Hi = GenVal(pk).Draw(t, "hi")
 			}
 		}
+		if n.Lo != nil && n.Hi != nil {
+			switch rapid.IntRange(0, 9).Draw(t, "boundrel") {
+			case 0: // equal bounds
+				n.Hi = n.Lo
+			case 1: // min > max
+				n.Lo, n.Hi = n.Hi, n.Lo
+			}
+		}
 		n.IncLo = rapid.Bool().Draw(t, "inclo")
 		n.IncHi = n.IncLo
 		if c.MixedBracket && rapid.IntRange(0, 5).Draw(t, "mixed") == 0 {
@@ -94,7 +102,14 @@ func genLeaf(t *rapid.T, c TreeCfg) *Node {
 		pk := c.Vals
 		pk.Wild, pk.Regexp = false, false
 		cnt := rapid.IntRange(2, 4).Draw(t, "nvals")
+		if rapid.IntRange(0, 19).Draw(t, "biglist") == 0 {
+			cnt = rapid.IntRange(5, 40).Draw(t, "nbig")
+		}
 		for i := 0; i < cnt; i++ {
+			if i > 0 && rapid.IntRange(0, 7).Draw(t, "dup") == 0 {
+				n.Vals = append(n.Vals, n.Vals[rapid.IntRange(0, i-1).Draw(t, "dupof")]) // a repeated value
+				continue
+			}
 			n.Vals = append(n.Vals, GenVal(pk).Draw(t, "lv"))
 		}
 	}
@@ -185,9 +200,113 @@ func genNode(t *rapid.T, c TreeCfg, depth int) *Node {
 	return n
 }
 
-// GenTree draws a query tree.
+// genBigShape draws one of the size / shape extremes: a long chain of one binary
+// operator, a deep unary or group nest, a suffix operator repeated many times, a
+// very long term.
+func genBigShape(t *rapid.T, c TreeCfg) *Node {
+	n := rapid.IntRange(12, 70).Draw(t, "bign")
+	leaf := func() *Node { return genLeaf(t, c) }
+	switch rapid.IntRange(0, 5).Draw(t, "bigkind") {
+	case 0, 1: // left- or right-deep chain of AND / OR
+		k := NAnd
+		if c.Or && rapid.Bool().Draw(t, "bigor") {
+			k = NOr
+		}
+		right := rapid.Bool().Draw(t, "rightdeep")
+		cur := leaf()
+		for i := 0; i < n; i++ {
+			if right {
+				cur = &Node{K: k, L: leaf(), R: cur}
+			} else {
+				cur = &Node{K: k, L: cur, R: leaf()}
+			}
+		}
+		return cur
+	case 2: // deep unary nest
+		cur := leaf()
+		ops := []NKind{}
+		for _, o := range []struct {
+			on bool
+			k  NKind
+		}{{c.Not, NNot}, {c.Must, NMust}, {c.MNot, NMustNot}} {
+			if o.on {
+				ops = append(ops, o.k)
+			}
+		}
+		if len(ops) == 0 {
+			return cur
+		}
+		for i := 0; i < n; i++ {
+			cur = &Node{K: rapid.SampledFrom(ops).Draw(t, "un"), L: cur}
+		}
+		return cur
+	case 3: // one suffix operator repeated
+		if !c.Boost && !c.Fuzzy {
+			return leaf()
+		}
+		cur := leaf()
+		k := NBoost
+		if !c.Boost || (c.Fuzzy && rapid.Bool().Draw(t, "fz")) {
+			k = NFuzzy
+		}
+		for i := 0; i < n/3+2; i++ {
+			x := &Node{K: k, L: cur}
+			if rapid.Bool().Draw(t, "arg") {
+				x.Arg = true
+				if k == NBoost {
+					x.ArgS = rapid.SampledFrom(powPool).Draw(t, "pw")
+					x.Pow, _ = strconv.ParseFloat(x.ArgS, 64)
+				} else {
+					x.ArgS = rapid.SampledFrom(distPool).Draw(t, "ds")
+					x.Dist, _ = strconv.Atoi(x.ArgS)
+				}
+			}
+			cur = x
+		}
+		return cur
+	case 4: // very long term
+		w := ""
+		for len(w) < n*12 {
+			w += rapid.SampledFrom(simpleWords).Draw(t, "lw")
+		}
+		if !PlainWordOK(w) {
+			w = "w" + w
+		}
+		if c.Bare && rapid.Bool().Draw(t, "longbare") {
+			return &Node{K: NTerm, V: Word(w)}
+		}
+		return &Node{K: NField, Field: Word("f"), V: Quoted(w + " " + w)}
+	default: // balanced tree of mixed operators
+		nodes := []*Node{}
+		for i := 0; i < n; i++ {
+			nodes = append(nodes, leaf())
+		}
+		for len(nodes) > 1 {
+			var next []*Node
+			for i := 0; i+1 < len(nodes); i += 2 {
+				k := NAnd
+				if c.Or && rapid.Bool().Draw(t, "mix") {
+					k = NOr
+				}
+				next = append(next, &Node{K: k, L: nodes[i], R: nodes[i+1]})
+			}
+			if len(nodes)%2 == 1 {
+				next = append(next, nodes[len(nodes)-1])
+			}
+			nodes = next
+		}
+		return nodes[0]
+	}
+}
+
+// GenTree draws a query tree; about one in 25 is a size / shape extreme.
 func GenTree(c TreeCfg) *rapid.Generator[*Node] {
-	return rapid.Custom(func(t *rapid.T) *Node { return genNode(t, c, 0) })
+	return rapid.Custom(func(t *rapid.T) *Node {
+		if c.MaxDepth >= 3 && (c.And || c.Or) && rapid.IntRange(0, 24).Draw(t, "bigshape") == 0 {
+			return genBigShape(t, c)
+		}
+		return genNode(t, c, 0)
+	})
 }
 
 var fillPool = []string{" ", " ", " ", "\t", "\n", "\r\n", "  ", " \t ", "\n\n", "", "", " \r "}
